@@ -1,11 +1,12 @@
 KERNELS = {'C14_functor': dict(src='kernels/C14_functor.cpp', flags=['-DNDEBUG'])}
 def _c(e, **kw):
-    c = {'MAXE': e, '_unwindset': ['in_data.0:%d' % (e*e + 2), 'k_fill_u32.0:%d' % (e*e + 2)]}; c.update(kw); return c
+    c = {'MAXE': e, '_unwindset': ['in_data.0:%d' % (e*e + 2), 'k_fill_u32.0:%d' % (e*e + 2), 'agree.0:10', 'agree.1:10']}; c.update(kw); return c
 B2 = 'hybrid 2-d operand(s) (buffer capacity 16), extents 1..MAXE, all element data, every attribute and the result index symbolic; the functor expression (a type) is enumerated'
 def _h(name, unwind=8, quick=None, thorough=None, **kw):
     return dict(name=name, src='harnesses/C14.c', func='h_' + name, kernels=['C14_functor'], unwind=unwind,
                 quick=quick or [_c(3)], thorough=thorough or [_c(4)], bounds=B2, **kw)
-HARNESSES = [_h(n) for n in ('fn_transpose', 'fn_reshape', 'fn_flip', 'fn_slice', 'fn_square', 'fn_sum', 'fn_add', 'fn_subtract')]
+HARNESSES = [_h(n) for n in ('fn_transpose', 'fn_reshape', 'fn_flip', 'fn_slice', 'fn_invert', 'fn_sum')] + [
+  _h(n, quick=[_c(3, VAR=v) for v in (1, 2, 3, 4, 5)], thorough=[_c(4, VAR=v) for v in (1, 2, 3, 4, 5)]) for n in ('fn_add', 'fn_subtract')]
 OUTSIDE = []
 ASSUMPTIONS = []
 CLAIM = dict(text='', note='')
